@@ -110,13 +110,16 @@ let () =
          let (l, _) = raws (set_seed (seed_of_int (int_of_string seed))) (int_of_string k) in
          List.iter (fun v -> print_string (hex_of_z (bits_of (res53 v))); print_char ' ') l
      | ["EX"; mn; mx; r] ->
-         let x = uniform_expr (of_bits (z_of_hex mn)) (of_bits (z_of_hex mx)) (of_bits (z_of_hex r)) in
-         print_string (hex_of_z (bits_of x)); print_char ' ';
-         let fl = floor (float_of_b64 x) in
-         if fl >= -2147483648.0 && fl <= 2147483647.0 then Printf.printf "%d " (int_of_z (floorZ x))
-         else print_string "x "
-     | ["UIV"; mn; mx; v] ->    (* model value of getIntValue for the raw 64-bit draw v *)
-         Printf.printf "%d " (int_of_z (uniform_int (of_bits (z_of_hex mn)) (of_bits (z_of_hex mx)) (n_of_hex v)))
+         let mn = of_bits (z_of_hex mn) and mx = of_bits (z_of_hex mx) and r = of_bits (z_of_hex r) in
+         List.iter (fun x ->
+           print_string (hex_of_z (bits_of x)); print_char ' ';
+           let fl = floor (float_of_b64 x) in
+           if fl >= -2147483648.0 && fl <= 2147483647.0 then Printf.printf "%d " (int_of_z (floorZ x))
+           else print_string "x ") [uniform_raw mn mx r; uniform_expr mn mx r]
+     | ["UIV"; mn; mx; v] ->    (* model values for the raw 64-bit draw v: getIntValue, getValue, and the pre-fix int *)
+         let mn = of_bits (z_of_hex mn) and mx = of_bits (z_of_hex mx) and v = n_of_hex v in
+         Printf.printf "%d %s %d " (int_of_z (uniform_int mn mx v)) (hex_of_z (bits_of (uniform_value mn mx v)))
+           (int_of_z (uniform_int_raw mn mx v))
      | ["RAWAT"; seed; idx] ->   (* the raw 64-bit value and unit value of draw number idx (1-based) *)
          let (l, _) = raws (set_seed (seed_of_int (int_of_string seed))) (int_of_string idx) in
          let v = List.nth l (int_of_string idx - 1) in
